@@ -168,9 +168,9 @@ def rand_x(rng, n):
     nodes = []
     extras = rng.random() < 0.4
     for i in ids:
-        el = rng.choice(("C", "C", "H", "H", "O", "N"))
-        chg = rng.choice((0, 0, 0, 1, -1))
-        chh = chg if rng.random() < 0.7 else rng.choice((0, 1, -1))
+        el = rng.choice(("C", "C", "H", "H", "O", "N", "C", "H", "Hg", "He"))                    # Hg / He: not hydrogens
+        chg = rng.choice((0, 0, 0, 1, -1, 2, -3))
+        chh = chg if rng.random() < 0.7 else rng.choice((0, 1, -1, 2, -2))
         tg = [el, rng.random() < 0.2, rng.choice((0, 1, 2)), chg, [rng.choice(("O", "H", "C")) for _ in range(rng.randint(0, 3))]]   # not sorted
         th = [el, tg[1], rng.choice((0, 1, 2)), chh, list(tg[4])]
         a = {"element": el, "charge": chg, "atom_map": i, "typesGH": [tg, th]}
